@@ -34,11 +34,12 @@ COMPONENTS = {
         "urllib3 (every module, from /repo/src working tree)", "http.client", "email header parser",
         "io.BufferedReader over socket.SocketIO", "zlib", "zstandard", "OpenSSL via ssl (handshake, chain + hostname verification)",
         "urllib3.util.ssltransport.SSLTransport (client TLS record pump)", "h2 (HTTP/2 clause of C10)",
+        "urllib3.contrib.pyopenssl + pyOpenSSL/cryptography (C07 backend axis; Connection in memory-BIO mode)",
     ],
     "stub": [
         "kernel sockets / TCP (SimSocket)", "DNS (scenario table)", "select.poll (SimPoll)", "time.monotonic/time/sleep (VClock)",
         "random.random in back-off jitter (seeded)", "thread scheduling decisions (simsched baton)", "queue.LifoQueue -> SimLifoQueue (simsched runs)",
-        "threading.RLock -> SimRLock (simsched runs)", "ssl.SSLSocket -> SSLTransport over SimSocket", "origin servers and proxies (scripted reactive models)",
+        "threading.RLock -> SimRLock (simsched runs)", "ssl.SSLSocket -> SSLTransport over SimSocket", "pyOpenSSL fd transport -> memory-BIO pump over SimSocket (simkit/ossl.py)", "origin servers and proxies (scripted reactive models)",
     ],
 }
 
